@@ -105,7 +105,7 @@ def out_equal(a, b):
     return None
 
 
-def close_forms(a, b, k=4):
+def close_forms(a, b, k=4, abs_tol=0.0):
     """numeric closeness of two outputs obtained from different argument forms."""
     fa = flatten(a)
     fb = flatten(b)
@@ -113,7 +113,7 @@ def close_forms(a, b, k=4):
         return f'size {fa.shape} vs {fb.shape}'
     if fa.size == 0:
         return None
-    tol = k * ulp(max(np.abs(fa).max(), 1e-300))
+    tol = k * ulp(max(np.abs(fa).max(), 1e-300)) + abs_tol
     d = np.abs(fa - fb).max()
     return None if d <= tol else f'forms differ by {d:.3e} (tol {tol:.3e})'
 
@@ -515,6 +515,10 @@ def registry():
             return sim.generate_imu, [as_form(t, 'array' if form == 'frame' else form), lla, rph], {'sensor_type': st_}
         return sim.generate_imu, [as_form(t, 'array' if form == 'frame' else form), as_form(tr[['lat', 'lon', 'alt']].values[0], 'list' if form == 'list' else 'array'), rph, vel, st_], {}
 
+    # the synthesiser differentiates inertial position twice: its readings carry rounding noise ~ulp(6.4e6)/h^2 (C03), and a
+    # different memory layout of an equal input (F- vs C-ordered) changes summation order: measured 2.8e-13 m/s^2 at h = 0.1
+    R['sim.generate_imu']['form_tol'] = 128 * 9.3e-10 / 0.1 ** 2 * 1e-3
+
     @reg('sim.generate_sine_velocity_motion', forms=('array', 'list'), kind='traj_imu')
     def _(rng, form):
         return sim.generate_sine_velocity_motion, [0.1, 5.0, as_form([50.0, 60.0, 100.0], form), as_form([3.0, -2.0, 0.1], form)], \
@@ -684,7 +688,7 @@ def run_entry(case, ctx):
         if form != base:
             fn0, args0, kw0 = e['build'](np.random.RandomState(case['sub']), base)
             out0 = fn0(*args0, **kw0)
-            r = close_forms(out, out0)
+            r = close_forms(out, out0, abs_tol=e.get('form_tol', 0.0))
             ctx.check(r is None, f'forms_disagree:{name}', lambda: f'{name}: form {form} vs {base}: {r}')
     ctx.mark_nontrivial(any(isinstance(a, (np.ndarray, pd.DataFrame, pd.Series)) for a in args))
 
